@@ -1653,15 +1653,18 @@ def c10_thread(ctx):
             out.append(ok(R, key, 'the job is sent to the thread on every path', fn=run.name))
         else:
             out.append(bad(R, key, 'SchedulerThread::run can return without handing the job to its thread: the queue it was meant to run stays Running/Pending with no runner', fn=run.name))
-    bodies = [k for k in _children(ctx, 'desync::SchedulerThread::new') if calls(k, 'std::sync::mpsc::Receiver::recv')]
+    def _recvs(k_):
+        return calls(k_, 'std::sync::mpsc::Receiver::recv') + calls(k_, 'std::sync::mpsc::Receiver::recv_iter')
+    bodies = [k for k in _children(ctx, 'desync::SchedulerThread::new') if _recvs(k)]
     key = 'SchedulerThread|loop-runs-jobs'
     if len(bodies) != 1:
         out.append(undecided(R, key, 'thread body (the closure that receives jobs) not found'))
     else:
         k = bodies[0]
-        rc = calls(k, 'std::sync::mpsc::Receiver::recv')
+        rc = _recvs(k)
         e = result_edges(k, rc[0][0])
-        okedge = edge_for(e, RESULT, 'Ok') if e else None
+        is_iter = (rc[0][1]['func'].get('fn') or '').endswith('recv_iter')
+        okedge = (edge_for(e, OPTION, 'Some') if is_iter else edge_for(e, RESULT, 'Ok')) if e else None
         runs = [s_ for s_ in g.sites.get(k.name, []) if s_.kind == 'param']
         if okedge is None:
             out.append(undecided(R, key, 'test of recv() not recognised'))
@@ -1694,6 +1697,10 @@ def c10_fetch(ctx):
         for s in b['stmts']:
             if s['k'] == 'assign' and not s['pl']['p'] and s['pl']['l'] == 0 and s['rv']['k'] == 'agg' and s['rv'].get('variant') == 'None':
                 nones.append(bb)
+    # `pop_front()?`: the None answer is built from the residual
+    for bb, t in fn.calls():
+        if (t['func'].get('fn') or '') == 'core::ops::try_trait::FromResidual::from_residual' and not t['dest']['p'] and t['dest']['l'] == 0 and not fn.blocks[bb]['cleanup']:
+            nones.append(bb)
     if none_edge is None or not nones:
         out.append(undecided(R, key, 'shape not recognised'))
     elif all(edom(fn, none_edge, b) for b in nones):
